@@ -239,8 +239,9 @@ fn utf8_text(r: &mut Rng) -> Vec<u8> {
 
 /// Announce values: plain URLs, and text the parser must hand over untouched.
 fn announce_text(r: &mut Rng) -> Vec<u8> {
-    let opts: [&[u8]; 8] = [
+    let opts: [&[u8]; 11] = [
         b"http://127.0.0.1:8000/ann", b"URL", b"http://t.example/a?k=v", b"", b"http://t/a\n", b" http://t/a", b"HTTP://T.Example/A%2fb/", b"   ",
+        b"udp://tracker.example.org:6969/announce", b"wss://t.example/a", b"http://t.example/my tracker/a?user=John Doe&k=v",
     ];
     match r.below(3) {
         0 => utf8_text(r),
@@ -383,13 +384,21 @@ pub fn gen_doc(r: &mut Rng, mutate: u64, style: u64) -> Doc {
         let v = if style == 2 && r.coin() {
             // decoy: a dictionary that itself has a key spelled `info`
             T::Dict(vec![(b"x".to_vec(), 0, rand_small(r, 1)), (b"info".to_vec(), 0, rand_small(r, 2))])
+        } else if r.chance(1, 6) {
+            // BEP 12: further trackers, tier by tier (the client announces to `announce`; what it reports as the tracker URL
+            // is that key's value)
+            T::List(vec![
+                T::List(vec![T::s(b"http://backup.example.net/announce"), T::s(b"udp://t2.example:80")]),
+                T::List(vec![T::s(b"https://third.example/a")]),
+            ])
         } else if style >= 1 && r.chance(1, 3) {
             // decoy: a *value* spelled like the key (e.g. `6:source4:info`), in front of or behind the real entry
             T::s(b"info")
         } else {
             rand_small(r, 2)
         };
-        top.push((r.pick(&k).to_vec(), 0, v));
+        let is_tiers = matches!(&v, T::List(l) if l.len() == 2 && matches!(&l[0], T::List(_)));
+        top.push((if is_tiers { b"announce-list".to_vec() } else { r.pick(&k).to_vec() }, 0, v));
     }
     if style == 0 {
         top.sort_by(|a, b| a.0.cmp(&b.0));
